@@ -157,6 +157,63 @@ fn nested_case(f: &[&str]) -> String {
     }
 }
 
+/// W <fifo path> <text> <watch>: the flag is raised by a fire-and-forget thread (it drops its handle right after raising)
+/// WHILE THE RUN IS STILL LOADING THE SCRIPT: the script file is a named pipe, the thread raises the flag after the runner
+/// has opened the pipe and before it writes the text.  The embedder's own handle is moved into the Env.
+fn watchdog_during_load(f: &[&str]) -> String {
+    use std::io::Write;
+    let path = dec_str(f[1]);
+    let text = dec_str(f[2]);
+    if let Some(dir) = std::path::Path::new(&path).parent() {
+        let _ = std::fs::create_dir_all(dir);
+    }
+    let _ = std::fs::remove_file(&path);
+    match std::process::Command::new("mkfifo").arg(&path).status() {
+        Ok(st) if st.success() => (),
+        _ => return "NOFIFO".to_string(),
+    }
+    let log = Rc::new(RefCell::new(Vec::new()));
+    let waiting = Arc::new(AtomicBool::new(false));
+    let mut context = sdk_context(false);
+    for name in ["hlog", "hraise", "hraisefail", "hwait", "hwaitfail"] {
+        context
+            .commands
+            .set(Box::new(Nested { name, log: log.clone(), waiting: waiting.clone() }))
+            .expect("harness command");
+    }
+    let halt = Arc::new(AtomicBool::new(false));
+    let raiser = halt.clone();
+    let (wpath, wtext) = (path.clone(), text.clone());
+    let t = std::thread::spawn(move || {
+        // opening for writing blocks until the runner has opened the pipe for reading: the run is under way
+        let mut pipe = match std::fs::OpenOptions::new().write(true).open(&wpath) {
+            Ok(p) => p,
+            Err(_) => return,
+        };
+        raiser.store(true, Ordering::SeqCst);
+        drop(raiser);
+        let _ = pipe.write_all(wtext.as_bytes());
+    });
+    let env = Env::new(None, None, Some(halt));      // the only remaining handle goes to the Env
+    let r = runner::run_script_file(&path, context, Some(env));
+    let _ = t.join();
+    let _ = std::fs::remove_file(&path);
+    let logs = {
+        let l = log.borrow();
+        if l.is_empty() { "-".to_string() } else { l.join(";") }
+    };
+    match r {
+        Ok(ctx) => {
+            let vars: Vec<String> = dec_list(f[3])
+                .iter()
+                .map(|v| format!("{}={}", enc_str(v), enc_opt(&ctx.variables.get(v).cloned())))
+                .collect();
+            format!("OK\t{}\t{}", logs, if vars.is_empty() { "-".to_string() } else { vars.join(";") })
+        }
+        Err(e) => format!("ERR\t{}\t{}", script_error_kind(&e), logs),
+    }
+}
+
 fn run_case_default_env(f: &[&str]) -> String {
     let shared = Rc::new(RefCell::new(Shared::default()));
     let cmds = parse_cmds(f[5], &shared);
@@ -181,6 +238,7 @@ fn main() {
     serve(|f| match f[0] {
         "Q" if f.len() >= 8 => run_case_default_env(f),
         "N" if f.len() >= 5 => nested_case(f),
+        "W" if f.len() >= 4 => watchdog_during_load(f),
         "P" if f.len() >= 8 => {
             let halt = Arc::new(AtomicBool::new(f[2] == "0"));
             run_case(f, halt, 0)
